@@ -159,6 +159,26 @@ def perturbations(g, rng, ir, choose=None):
         used = any(y in list(e.symbols) for bb in bis for e in bb.symbolic_expressions.values())
         if not used:
             P.append(("module.symbol-removed", lambda: y.module.symbols.discard(y)))
+    if len(mods) >= 2:
+        # count-preserving changes of WHO CONTAINS WHAT: two children of the same kind exchange their modules
+        ma, mb = mods[0], mods[1]
+        for attr, nm in (("sections", "section"), ("symbols", "symbol"), ("proxies", "proxy")):
+            xa, xb = pick(list(getattr(ma, attr))), pick(list(getattr(mb, attr)))
+            if xa is not None and xb is not None:
+                def swap_owner(xa=xa, xb=xb, ma=ma, mb=mb):
+                    xa.module = mb
+                    xb.module = ma
+                P.append(("%s.swapped-between-modules" % nm, swap_owner))
+        sa, sb = pick([x for x in secs if len(x.byte_intervals)]), None
+        if sa is not None:
+            sb = pick([x for x in secs if x is not sa and len(x.byte_intervals)])
+        if sa is not None and sb is not None:
+            ba, bb = next(iter(sa.byte_intervals)), next(iter(sb.byte_intervals))
+
+            def swap_bi(ba=ba, bb=bb, sa=sa, sb=sb):
+                ba.section = sb
+                bb.section = sa
+            P.append(("interval.swapped-between-sections", swap_bi))
     xk = pick(exprs)
     if xk is not None:
         xb, k = xk
